@@ -521,3 +521,26 @@ def underPromoMates (n : Nat) (r : Rng) : List Position :=
   go n [] r
 
 end Rawr.GenPos
+
+namespace Rawr.GenPos
+open Rawr Spec
+
+/-- EXHAUSTIVE small family: white king on `wk`, black king anywhere, one extra man of any kind and colour anywhere,
+either side to move; only structurally valid positions are kept. -/
+def smallBlock (wk : Nat) : List Position :=
+  let kinds : List Kind := [.queen, .rook, .bishop, .knight, .pawn]
+  (List.range 64).flatMap fun bk =>
+    if bk == wk then [] else
+    (List.range 64).flatMap fun x =>
+      if x == wk || x == bk then [] else
+      kinds.flatMap fun k =>
+        [true, false].flatMap fun xw =>
+          [true, false].filterMap fun wtm =>
+            let board : Board := fun s =>
+              if s == wk then some ⟨true, .king⟩ else if s == bk then some ⟨false, .king⟩
+              else if s == x then some ⟨xw, k⟩ else none
+            let a : APos := { board := board, whiteToMove := wtm, wK := none, wQ := none, bK := none, bQ := none,
+                              ep := none, half := 0, full := 1 }
+            if Spec.Valid a then some (rel a false) else none
+
+end Rawr.GenPos
